@@ -79,8 +79,9 @@ Definition pTail : P (N * N) :=
            end.
 
 Definition pDgram : P dgram :=
-  do s <- pFaddr;; do d <- pFaddr;; do c <- pN;; do r <- pOptN;; do a <- pB;; do b <- pBody;; do t <- pTail;;
-  pret {| d_src := s; d_dst := d; d_ctr := c; d_ref := r; d_ack := a; d_body := b; d_fct := fst t; d_sel := snd t |}.
+  (* ackRequest on the wire: 0 absent, 1 true, 2 present and false; absent and false are the same request *)
+  do s <- pFaddr;; do d <- pFaddr;; do c <- pN;; do r <- pOptN;; do a <- pZ;; do b <- pBody;; do t <- pTail;;
+  pret {| d_src := s; d_dst := d; d_ctr := c; d_ref := r; d_ack := Z.eqb a 1; d_body := b; d_fct := fst t; d_sel := snd t |}.
 
 (* a length-prefixed sub-list parsed completely by p *)
 Definition pSub {A} (p : P A) : P A :=
@@ -104,6 +105,7 @@ Definition pOp : P op :=
   | 9 => do f <- pN;; do c <- pN;; do cb <- pN;; do e <- pEaddr;; pret (AddRespCb e f c cb)
   | 10 => do f <- pN;; do cb <- pN;; do e <- pEaddr;; pret (AddResultCb e f cb)
   | 11 => do t <- pN;; pret (QFactory t)
+  | 14 => do e <- pEaddr;; pret (RemoveLocalEntity e)
   | 13 => do l <- pList (do p <- pN;; do d <- pSub pDgram;; pret (p, d));; pret (SeqArrive l)
   | 12 => do late <- pOptN;; do pf <- pN;; do ps <- pList pN;; do d <- pDgram;; pret (ParArrive ps d late pf)
   | _ => pfail
